@@ -453,7 +453,7 @@ fn operands(k: StrKind) -> Vec<Opnd> {
     // strings that read like a time string (only digits and time punctuation / letters, X.680
     // 41.? tstring): the lexer takes them for one, the alphabet must count them all the same
     let u = universe(k);
-    for t in ["0:9", "1-2", "T0Z", "9.5"] {
+    for t in ["0:9", "1-2", "T0Z", "9.5", "1,5", ",9", "5+1", "2/3", "P1Y", "0,1Z"] {
         if t.chars().all(|c| u.contains(&c) && in_base(k, c)) {
             v.push(Opnd::Str(t.to_string()));
         }
